@@ -17,7 +17,7 @@ def run(ctx):
     src = re.sub(r"MaxDepth = \d+", f"MaxDepth = {depth}", src)
     cfg = os.path.join(ctx.scratch, "IRCloneMC_v.cfg")
     open(cfg, "w").write(src)
-    res = ctx.tlc(os.path.join(IR, "IRCloneMC.tla"), cfg, tag="mc-clone", timeout=3000)
+    res = ctx.tlc(os.path.join(IR, "IRCloneMC.tla"), cfg, tag="mc-clone", timeout=6000, heap="28g" if ctx.tier == "thorough" else "8g")
     if not res.ok:
         raise MachineryError(f"design spec check failed: {res.violated} {res.errors[:2]}\n{res.tail(25)}")
     findings, stats, kinds = irclone.replay_file(res.out_path, dict(names=NAMES4, consts=CONSTS4), nproc=NCPU)
